@@ -123,6 +123,17 @@ func CompareProgramSource(name, src string, interp bool) (key, what string, host
 	if rej != "" {
 		return "rejected/build", rej, 0
 	}
+	if !core.Thorough() {
+		// quick tier: the dead-code stripper of `wa build --optimize` keeps engine compilation small
+		o := theWorker().Do("watstrip", wk.Src{Name: name, Src: b.Wat})
+		var r struct {
+			Out string `json:"out"`
+		}
+		if o.Kind != wk.OK || o.Decode(&r) != nil {
+			return "rejected/watstrip", o.String(), 0
+		}
+		b.Wat = r.Out
+	}
 	wasm, err := om.Assemble(b.Wat)
 	if err != nil {
 		return "rejected/assemble", err.Error(), 0
